@@ -151,3 +151,8 @@ def check_masked_rotation(run, f, signed=True, rule='R7'):
                     bad.append(norm(n))
         run.check(not bad, rule + '.untouched', f, s.companion,
                   'phase increment %s is applied to rows that commute with the generator' % bad)
+        pe_rows = pair.phase_expr_of(s.a if norm(pair.strip_shape(s.a)) != gen else s.b)
+        unmasked = [norm(pair.strip_shape(n)) for sg, n in pair.summands(inner) if pair.split_mult(n)[1] is None]
+        run.check(unmasked == [pe_rows], rule + '.untouched', f, s.companion,
+                  'rows that commute with the generator must keep their phase: the old phase %s must enter the new phase outside the mask factor '
+                  '(unmasked summands found: %s)' % (pe_rows, unmasked))
